@@ -119,3 +119,12 @@ def parse_shape(t):
         return (l, r)
 
     return rec()
+
+
+def comb(depth, side, hang):
+    """a spine of `depth` two-child nodes going down on `side` ('L' or 'R'); the other child of every
+    spine node is the small shape `hang` (None for a one-child spine node), the spine ends in a leaf"""
+    cur = (None, None)
+    for _ in range(depth):
+        cur = (cur, hang) if side == "L" else (hang, cur)
+    return cur
